@@ -57,7 +57,8 @@ TRUSTED_BASE = [
     "automorphisms; that gluing is such a function is a named premise (gluing equivariance, property C05) - exercised end-to-end by the oracle "
     "on every prune case",
 ]
-ASSUMPTIONS = ["node ids are non-negative integers", "every edge carries an 'order'", "graphs are simple and undirected",
+ASSUMPTIONS = ["node ids are non-negative integers", "an absent attribute is its default label (charge 0, other node attributes '*', bond order 1.0)",
+               "graphs are simple and undirected",
                "rule automorphisms are those of rule.rc.raw preserving every node attribute except atom_map and every edge attribute"]
 TESTED_NOT_PROVED = ["end-to-end: set of standardised reactions and of ITS hashes with pruning on == with every raw match glued (oracle, every prune case; "
                      "the proved half is: every raw match differs from a kept match by a rule automorphism)",
@@ -95,8 +96,13 @@ def _lab_a(a):
     return json.dumps([a.get("element", "*"), a.get("charge", 0)])
 
 
+def _dflt(k):
+    """the default label of an absent attribute (Automorphism._node_defaults; AutoEst uses the same since the round-3 fix)"""
+    return 0 if k == "charge" else "*"
+
+
 def _lab_w(a):
-    return json.dumps([a.get(k) for k in WL_ATTRS4])
+    return json.dumps([GG._js(a.get(k, _dflt(k))) for k in WL_ATTRS4], default=str)
 
 
 def _lab_f(a):
@@ -107,29 +113,33 @@ def _lab_e(a):
     return json.dumps({k: GG._js(v) for k, v in a.items()}, sort_keys=True, default=str)
 
 
+def _order(a):
+    return a.get("order", 1.0)          # default of an absent bond order (Automorphism._edge_defaults)
+
+
 def _in_domain(g):
     for n, a in g["nodes"]:
-        if not (isinstance(n, int) and n >= 0) or "element" not in a or "charge" not in a:
+        if not (isinstance(n, int) and n >= 0):
             return False
     for u, v, a in g["edges"]:
-        if "order" not in a or u == v:
+        if u == v:
             return False
     return True
 
 
 def _lab_keys(a, nk):
-    return _lab_a(a) if nk is None else json.dumps([GG._js(a.get(k)) for k in nk], default=str)
+    return _lab_a(a) if nk is None else json.dumps([GG._js(a.get(k, _dflt(k))) for k in nk], default=str)
 
 
 def _coq_graph(g, nk=None):
     """lgraph (N*N*N) (N*N): node label (exact-analysis label, WL label, full label); edge label (order code, full code).
     Order codes are monotone in the order value (AutoEst sorts neighbour signatures)."""
     ia, iw, ifl, ie = GG.Intern(), GG.Intern(), GG.Intern(), GG.Intern()
-    orders = sorted({GG.half(a["order"]) for _, _, a in g["edges"]})
+    orders = sorted({GG.half(_order(a)) for _, _, a in g["edges"]})
     return GG.coq_lgraph(
         g,
         lambda n, a: "(%s, %s, %s)" % (cN(ia(_lab_keys(a, nk))), cN(iw(_lab_w(a))), cN(ifl(_lab_f(a)))),
-        lambda u, v, a: "(%s, %s)" % (cN(orders.index(GG.half(a["order"]))), cN(ie(_lab_e(a)))))
+        lambda u, v, a: "(%s, %s)" % (cN(orders.index(GG.half(_order(a)))), cN(ie(_lab_e(a)))))
 
 
 def _coq_maps(ms):
@@ -526,7 +536,7 @@ def _oracle_hist(case):
             for f in _oracle_aut_g(g, st.get("nk"), G=G):
                 fails.append(dict(f, detail="step %d: %s" % (k, f["detail"])))
             col = E_old.fit().node_colors            # an estimator object that existed before the edit, fitted again
-            for o in _true_orbits(g, lambda a: (a.get("element"), a.get("charge"))):
+            for o in _true_orbits(g, lambda a: (a.get("element", "*"), a.get("charge", 0))):
                 if len({col.get(n) for n in o}) != 1:
                     fails.append(dict(clause="wl-coarser", detail="step %d: re-fitted estimator: true orbit %r gets WL colours %r"
                                                                   % (k, o, [col.get(n) for n in o])))
@@ -656,10 +666,10 @@ def coq_case(case):
                 cs = set(c)
                 sub = {"nodes": [x for x in g["nodes"] if x[0] in cs], "edges": [e for e in g["edges"] if e[0] in cs and e[1] in cs]}
                 if len(cs) > 12:
-                    cost += _mono_cost(sub, _lab_a, lambda a: GG.half(a["order"]), 8 * MONO_BUDGET)
+                    cost += _mono_cost(sub, _lab_a, lambda a: GG.half(_order(a)), 8 * MONO_BUDGET)
                 if len(cs) > 6:
                     lab = {n: _lab_a(a) for n, a in sub["nodes"]}
-                    if _count_auts(list(lab), lab, _adj(sub, lambda a: GG.half(a["order"])), AUT_BUDGET) > AUT_BUDGET:
+                    if _count_auts(list(lab), lab, _adj(sub, lambda a: GG.half(_order(a))), AUT_BUDGET) > AUT_BUDGET:
                         return None
             if cost > 8 * MONO_BUDGET:
                 return None
@@ -785,7 +795,7 @@ def _true_orbits(g, labf):
     """orbits of the FULL label-preserving automorphism group (component swaps included), by pairwise search."""
     nodes = [n for n, _ in g["nodes"]]
     lab = {n: labf(a) for n, a in g["nodes"]}
-    adj = _adj(g, lambda a: a.get("order"))
+    adj = _adj(g, _order)
     rep = {}
     classes = []
     for u in nodes:
@@ -816,7 +826,7 @@ def _oracle_aut_g(g, nk=None, G=None):
         lab = {n: (a.get("element", "*"), a.get("charge", 0)) for n, a in g["nodes"]}
     else:
         A = Automorphism(G, node_attr_keys=list(nk), edge_attr_keys=["order"])
-        lab = {n: tuple(GG._js(a.get(k)) for k in nk) for n, a in g["nodes"]}
+        lab = {n: tuple(GG._js(a.get(k, _dflt(k))) for k in nk) for n, a in g["nodes"]}
     adj = _adj(g, lambda a: a.get("order", 1.0))
     comps = _components(g)
     cnt, classes = 1, set()
@@ -834,7 +844,8 @@ def _oracle_aut_g(g, nk=None, G=None):
     if sorted(map(sorted, A.components)) != sorted(map(sorted, comps)):
         fails.append(dict(clause="components", detail="components %r vs %r" % (A.components, comps)))
     nk2 = ["element", "charge"] if nk is None else list(nk)
-    for attrs, labf in ((WL_ATTRS4, lambda a: tuple(a.get(k) for k in WL_ATTRS4)), (None if nk is None else nk2, lambda a: tuple(a.get(k) for k in nk2))):
+    for attrs, labf in ((WL_ATTRS4, lambda a: tuple(a.get(k, _dflt(k)) for k in WL_ATTRS4)),
+                        (None if nk is None else nk2, lambda a: tuple(a.get(k, _dflt(k)) for k in nk2))):
         est = AutoEst(G, node_attrs=attrs, edge_attrs=["order"]).fit()
         col = est.node_colors
         truth = _true_orbits(g, labf)
